@@ -123,6 +123,43 @@ def r2_operand_order(ctx):
             names = [P.un(e) for e in a.targets[0].elts]
             ok = names in (["arg1", "arg2"], ["target", "index"])
             ctx.ob("C15.R2", f"{OPT}::{P.un(a)}", OPT, a.lineno, ok, "" if ok else "operands are unpacked in a different order")
+            # ... and used as they are: an operand that is rebound between the unpacking and the node
+            # built from it is a second, unreviewed rewrite (of the operand) hidden inside the first
+            blk = P.block_of(a) or []
+            rebound = [s for s in blk if s is not a for x in ast.walk(s) if isinstance(x, (ast.Assign, ast.AugAssign, ast.AnnAssign, ast.NamedExpr))
+                       for t in (P.store_targets(x) if not isinstance(x, ast.NamedExpr) else [x.target]) for n in ast.walk(t) if isinstance(n, ast.Name) and n.id in names]
+            ctx.ob("C15.R2", f"{OPT}::operands {names} reach the rewritten node unchanged (line {a.lineno})", OPT, a.lineno, not rebound,
+                   "" if not rebound else f"`{P.un(rebound[0])[:70]}` rebinds an operand before the rewritten node is built: the operand expression itself is rewritten, which no table of this checker has reviewed",
+                   witness="(operator/getitem v (python/slice n)) must stay v[slice(n)] == v[:n]")
+
+
+@rule("C15.R10", floor=2)
+def r10_optimizer_state_is_per_instance(ctx):
+    """The optimizer's working state (the stack of `global` contexts) belongs to one run of one
+    optimizer: it is created in __init__ as an instance attribute.  A mutable container assigned
+    at class level is shared by every instance -- and compilations run concurrently (futures, the
+    nREPL server, threads that eval) -- so one compilation's declarations would be recorded in,
+    and popped from, another's."""
+    cls = P.find_def(ctx.py(OPT), "PythonASTOptimizer")
+    if cls is None:
+        raise AnalysisError("anchor vanished: PythonASTOptimizer")
+    MUTABLE = ("deque", "collections.deque", "list", "dict", "set", "defaultdict", "collections.defaultdict")
+    shared = []
+    for s in cls.body:
+        if isinstance(s, (ast.Assign, ast.AnnAssign)) and getattr(s, "value", None) is not None:
+            v = s.value
+            if isinstance(v, (ast.List, ast.Dict, ast.Set)) or (isinstance(v, ast.Call) and P.un(v.func) in MUTABLE):
+                shared.append(s)
+    ctx.ob("C15.R10", f"{OPT}::PythonASTOptimizer has no mutable class-level state", OPT, cls.lineno, not shared,
+           "" if not shared else f"`{P.un(shared[0])[:70]}` is created once, at class level: every optimizer instance (and every thread compiling) shares it",
+           witness="two threads compiling (defn f [] (def x 1)) at the same time: one function loses its `global x`")
+    init = P.methods(cls).get("__init__")
+    used = sorted({n.attr for m in P.all_methods(cls) for n in ast.walk(m) if isinstance(n, ast.Attribute) and isinstance(n.value, ast.Name) and n.value.id == "self" and n.attr.startswith("_") and isinstance(n.ctx, ast.Load)
+                   and not any(n.attr == mm.name for mm in P.all_methods(cls))})
+    stored = {a for _s, a in P.self_attr_stores(init)} if init is not None else set()
+    missing = [u for u in used if u not in stored and not any(isinstance(s, ast.FunctionDef) and s.name == u for s in cls.body)]
+    ctx.ob("C15.R10", f"{OPT}::every state attribute {used} is created in __init__", OPT, getattr(init, "lineno", cls.lineno), not missing,
+           "" if not missing else f"{missing} is read through self but never created per instance in __init__")
 
 
 @rule("C15.R3", floor=2)
